@@ -8,6 +8,7 @@ package main
 // end to end over a fake conn / a temp-dir sandbox.
 
 import (
+	"encoding/json"
 	"fmt"
 	"io"
 	"net"
@@ -23,6 +24,8 @@ import (
 
 	"github.com/q191201771/lal/pkg/base"
 	"github.com/q191201771/lal/pkg/hls"
+	"github.com/q191201771/lal/pkg/httpflv"
+	"github.com/q191201771/lal/pkg/httpts"
 	"github.com/q191201771/lal/pkg/logic"
 	"github.com/q191201771/lal/pkg/mpegts"
 	"github.com/q191201771/lal/pkg/rtsp"
@@ -425,7 +428,108 @@ func c14Blacklist(a []string) string {
 	return strings.Join(out, "|")
 }
 
+// ---------------------------------------------------------------------------
+// a real ServerManager is offered a real httpflv / httpts SubSession
+
+var (
+	c14SmMu    sync.Mutex
+	c14SmCache = map[string]*logic.ServerManager{}
+)
+
+func c14Sm(flags int, key, ovr string) *logic.ServerManager {
+	k := fmt.Sprintf("%d|%s|%s", flags, key, ovr)
+	if sm, ok := c14SmCache[k]; ok {
+		return sm
+	}
+	conf := map[string]interface{}{
+		"conf_version": base.ConfVersion,
+		"log":          map[string]interface{}{"level": 5, "filename": "", "is_to_stdout": false, "is_rotate_daily": false, "short_file_flag": false, "timestamp_flag": false, "timestamp_with_ms_flag": false, "level_flag": false, "assert_behavior": 1},
+		"simple_auth": map[string]interface{}{"key": key, "dangerous_lal_secret": ovr,
+			"pub_rtmp_enable": flags&1 != 0, "sub_rtmp_enable": flags&2 != 0, "sub_httpflv_enable": flags&4 != 0, "sub_httpts_enable": flags&8 != 0,
+			"pub_rtsp_enable": flags&16 != 0, "sub_rtsp_enable": flags&32 != 0, "hls_m3u8_enable": flags&64 != 0},
+	}
+	raw, err := json.Marshal(conf)
+	if err != nil {
+		panic(err)
+	}
+	sm := logic.NewServerManager(func(o *logic.Option) { o.ConfRawContent = raw })
+	c14SmCache[k] = sm
+	return sm
+}
+
+func c14SmSub(a []string) string {
+	c14SmMu.Lock()
+	defer c14SmMu.Unlock()
+	httpflv.SubSessionWriteChanSize = 0
+	httpts.SubSessionWriteChanSize = 0
+	sm := c14Sm(intTok(a[0]), c14Str(a[1]), c14Str(a[2]))
+	stream, param := c14Str(a[4]), c14Str(a[5])
+	conn := newFakeConn(nil)
+	var err error
+	var id string
+	if a[3] == "0" {
+		u := "http://127.0.0.1:8080/live/" + stream + ".flv"
+		if param != "" {
+			u += "?" + param
+		}
+		urlCtx, perr := base.ParseHttpflvUrl(u)
+		if perr != nil {
+			return "err-url"
+		}
+		s := httpflv.NewSubSession(conn, urlCtx, false, "")
+		if s.StreamName() != stream || s.RawQuery() != param {
+			return "generator-url-mismatch"
+		}
+		id = s.UniqueKey()
+		err = sm.OnNewHttpflvSubSession(s)
+		defer func() {
+			if err == nil {
+				sm.OnDelHttpflvSubSession(s)
+			}
+		}()
+	} else {
+		u := "http://127.0.0.1:8080/live/" + stream + ".ts"
+		if param != "" {
+			u += "?" + param
+		}
+		urlCtx, perr := base.ParseUrl(u, -1)
+		if perr != nil {
+			return "err-url"
+		}
+		s := httpts.NewSubSession(conn, urlCtx, false, "")
+		if s.StreamName() != stream || s.RawQuery() != param {
+			return "generator-url-mismatch"
+		}
+		id = s.UniqueKey()
+		err = sm.OnNewHttptsSubSession(s)
+		defer func() {
+			if err == nil {
+				sm.OnDelHttptsSubSession(s)
+			}
+		}()
+	}
+	code := "0x1"
+	switch err {
+	case nil:
+		code = "0x0"
+	case base.ErrSimpleAuthParamNotFound:
+		code = "0x2"
+	case base.ErrSimpleAuthFailed:
+		code = "0x3"
+	}
+	listed := 0
+	for _, g := range sm.StatAllGroup() {
+		for _, sub := range g.StatSubs {
+			if sub.SessionId == id {
+				listed++
+			}
+		}
+	}
+	return fmt.Sprintf("%s %s %s", code, tokNum(uint64(listed)), tokBool(conn.numWrites() > 0))
+}
+
 func init() {
+	register("c14.smsub", c14SmSub)
 	register("c14.simple", func(a []string) string {
 		f := intTok(a[0])
 		cfg := logic.SimpleAuthConfig{Key: c14Str(a[1]), DangerousLalSecret: c14Str(a[2]),
